@@ -53,6 +53,7 @@ bool active = false;
 uint64_t vnow = MV_T0;
 uint64_t npoints = 0;
 int forced_spins = 0;
+uint64_t time_heur = 0;    // clock advances decided by the polling heuristics (not proof that nobody could run)
 uint64_t time_devs = 0;    // TIME deviations taken: the clock moved although some thread could have run (a stalled vCPU)
 uint64_t time_jumps = 0;   // times the clock advanced because nothing could run (a quiescent state was reached)
 int poll_rounds = 0;      // consecutive default switches away from threads found polling (see Th::periodic)
@@ -200,12 +201,12 @@ void schedule(Th* me, const char* what, uintptr_t addr, bool exiting = false) {
             if (n > 1) me->consec++;
             // a thread that keeps running for a long time is probably polling for time to pass (e.g. "while (running_tasks)
             // thread_yield()" with a task asleep on a timer): let the next known deadline pass (deterministic: count based)
-            if (++me->alone > TIME_N || (n == 1 && me->periodic)) {
+            if (++me->alone > TIME_N || (n == 1 && me->periodic && me->alone > 200)) {      // (a few threads that each yield once or twice also look periodic for a moment: a real polling loop goes on)
                 me->alone = 0; me->hn = 0; me->periodic = false;
                 uint64_t d = NEVER;
                 for (int i = 0; i < NT; i++) { Th* t = &TH[i]; if ((t->wait == W_IDLE || t->wait == W_SLEEP || t->wait == W_COND) && t->deadline > vnow && t->deadline - vnow < FAR && t->deadline < d) d = t->deadline; }
                 for (int i = 0; i < ndeadlines; i++) if (deadlines[i] > vnow && deadlines[i] < d) d = deadlines[i];
-                if (d != NEVER) set_now(d);
+                if (d != NEVER) { set_now(d); time_heur++; }
             }
             return;
         }
@@ -213,12 +214,12 @@ void schedule(Th* me, const char* what, uintptr_t addr, bool exiting = false) {
         // every runnable thread in turn was found polling: they are waiting for time to pass (e.g. two vCPUs that both loop
         // "while (cond) thread_yield()" while a task sleeps on a timer): let the next known deadline pass
         if (me_enabled && me->periodic && idx == 0) {
-            if (++poll_rounds >= n) {
+            if (++poll_rounds >= 2 * n) {
                 poll_rounds = 0;
                 uint64_t d = NEVER;
                 for (int i = 0; i < NT; i++) { Th* t = &TH[i]; if ((t->wait == W_IDLE || t->wait == W_SLEEP || t->wait == W_COND) && t->deadline > vnow && t->deadline - vnow < FAR && t->deadline < d) d = t->deadline; }
                 for (int i = 0; i < ndeadlines; i++) if (deadlines[i] > vnow && deadlines[i] < d) d = deadlines[i];
-                if (d != NEVER) set_now(d);
+                if (d != NEVER) { set_now(d); time_heur++; }
             }
         } else poll_rounds = 0;
         me->consec = 0; next->consec = 0; me->hn = 0; me->periodic = false; next->hn = 0; next->periodic = false;
@@ -291,7 +292,7 @@ extern "C" {
 void (*mv_on_deadlock)(const char*) = default_deadlock;
 
 void mv_init(void) {
-    NT = 0; NM = 0; NP = 0; NR = 0; vnow = MV_T0; npoints = 0; time_jumps = 0; time_devs = 0; forced_spins = 0; poll_rounds = 0; time_dev = false; ndeadlines = 0; tso_mode = false; switch_points = true;
+    NT = 0; NM = 0; NP = 0; NR = 0; vnow = MV_T0; npoints = 0; time_jumps = 0; time_devs = 0; time_heur = 0; forced_spins = 0; poll_rounds = 0; time_dev = false; ndeadlines = 0; tso_mode = false; switch_points = true;
     mv_on_deadlock = default_deadlock;
     if (&photon::now) photon::now = vnow;
     self = reg_thread("main");
@@ -331,6 +332,7 @@ int mv_nthreads(void) { return NT; }
 void mv_set_name(const char* name) { if (self) snprintf(self->name, sizeof self->name, "%s", name); }
 uint64_t mv_time_jumps(void) { return time_jumps; }
 uint64_t mv_time_devs(void) { return time_devs; }
+uint64_t mv_time_heur(void) { return time_heur; }
 uint64_t mv_sched_points(void) { return npoints; }
 void mv_poison(const void* p, size_t n) { if (NP >= MAXPOISON) return; PZ[NP].lo = (uintptr_t)p; PZ[NP].hi = (uintptr_t)p + n; NP = NP + 1; }
 void mv_unpoison(const void* p, size_t n) {
